@@ -1,5 +1,5 @@
-"""C05 - calls honour context deadlines and cancellation (pipeline queue, cache flight, retry back-off, done contexts;
-the blocking pool part is checks/poolcommon.py)."""
+"""C05 - calls honour context deadlines and cancellation (pipeline queue, cache flight, blocking pool, retry back-off, handshake
+of a new connection, done contexts; the model of the blocking pool is checks/poolcommon.py)."""
 from checks import faultcommon as fc
 from checks import poolcommon
 LEVEL = 'model_checking'
@@ -9,30 +9,55 @@ def run(ctx):
     if getattr(ctx, 'replay', None):
         return fc.replay(ctx, lambda w: w in fc.C05_RETRY_WHATS, lambda w: w in fc.C05_FAULT_WHATS)
     th = ctx.tier == 'thorough'
-    # pipeline wait: leads-to under fairness of the caller's own steps; MC_live_ring shows the ring's documented limitation
-    fc.run_tlc_many(ctx, fc.pipe_model_jobs(th, 'c05') + [fc.J('client', 'Retry', 'MC_neg_afterctx.cfg', 'NoSpin', 2)], threads=4)
-    # pool wait: Pool.tla liveness + the lost wake-up schedule through the real pool
-    ctx.run_tlc('pool', 'Pool', 'MC_live.cfg', workers=4, timeout=600)
-    ctx.run_tlc('pool', 'Pool', 'MC_live_neg.cfg', expect_violation='CtxDoneReturns', workers=2, timeout=300)
-    poolcommon.drive(ctx, th, modes=('lostwake',) if not th else ('lostwake', 'stress'))
-    # waiting places on the real client: stalled server with both queue implementations, cache flight of another caller,
-    # contexts that are already done
-    cases = fc.gen_fault_cases(ctx)
-    ctxcases = [c for c in cases if c['fault'] == 'ctxend' or any(v == 'done' for v in c['ctx'].values())]
-    n = 600 if th else 70
+    n = 600 if th else 80
     always = lambda c: c['small']
-    verdicts = []
-    for q in ('ring', 'flowbuffer'):
-        verdicts += fc.run_fault_scenarios(ctx, fc.select_fault_cases(ctxcases, n, ctx.seed, always=always), q)
+    newkind = lambda c: bool(set(c['pend']) & set(fc.NEW_WAITING_KINDS))
+    out = {}
+
+    def models():
+        # pipeline wait: leads-to under fairness of the caller's own steps; MC_live_ring shows the ring's documented limitation;
+        # pool wait: Pool.tla liveness
+        fc.run_tlc_many(ctx, fc.pipe_model_jobs(th, 'c05') + [fc.J('client', 'Retry', 'MC_neg_afterctx.cfg', 'NoSpin', 2),
+                                                              fc.J('pool', 'Pool', 'MC_live.cfg', workers=4, timeout=600),
+                                                              fc.J('pool', 'Pool', 'MC_live_neg.cfg', 'CtxDoneReturns', 2, timeout=300)],
+                        threads=4)
+
+    def pool():
+        # the lost wake-up schedule through the real pool
+        poolcommon.drive(ctx, th, modes=('lostwake',) if not th else ('lostwake', 'stress'))
+
+    def places():
+        # waiting places on the real client: every waiting place (reply, queue slot, cache flight, blocking pool, retry back-off,
+        # handshake of a new connection) with every kind of context (deadline, cancel-only, deadline cancelled by hand), contexts
+        # that are already done; stalled server with both queue implementations (the places that do not depend on the queue
+        # implementation are visited once)
+        cases = fc.gen_fault_cases(ctx)
+        ctxcases = [c for c in cases if c['fault'] == 'ctxend' or any(v == 'done' for v in c['ctx'].values())]
+        sels = {q: fc.select_ctx_cases(ctxcases, n, ctx.seed, allow=(None if q == 'ring' else (lambda c: not newkind(c))), always=always)
+                for q in ('ring', 'flowbuffer')}
+        vs = fc.parallel(ctx, lambda: fc.run_fault_scenarios(ctx, sels['ring'], 'ring'),
+                         lambda: fc.run_fault_scenarios(ctx, sels['flowbuffer'], 'flowbuffer', par=12))
+        out['fault'] = (vs[0] + vs[1], cases, sum(len(x) for x in sels.values()))
+
+    def backoff():
+        # retry scripts: RetryDelay far beyond the deadline, contexts ending between attempts
+        rcases = [c for c in fc.gen_retry_cases(ctx, 30000 if th else 6000, ctx.seed) if c['ctxKind'] != 'none']
+        sel = fc.select_retry_cases(rcases, 800 if th else 100, ctx.seed)
+        rv, rep = fc.run_retry_scenarios(ctx, sel, par=8)
+        out['retry'] = (rv, sel)
+
+    fc.parallel(ctx, models, pool, places, backoff)
+    verdicts, cases, nrun = out['fault']
     fc.report_fault_verdicts(ctx, verdicts, lambda w: w in fc.C05_FAULT_WHATS, cases)
-    # retry back-off: RetryDelay far beyond the deadline, contexts ending between attempts
-    rcases = [c for c in fc.gen_retry_cases(ctx, 30000 if th else 6000, ctx.seed) if c['ctxKind'] != 'none']
-    sel = fc.select_retry_cases(rcases, 800 if th else 100, ctx.seed)
-    rv, rep = fc.run_retry_scenarios(ctx, sel)
+    rv, sel = out['retry']
     fc.report_retry_verdicts(ctx, rv, lambda w: w in fc.C05_RETRY_WHATS, sel)
-    ctx.extra['scenarios_run'] = dict(fault=2 * n, retry=len(sel))
+    ctx.extra['scenarios_run'] = dict(fault=nrun, retry=len(sel))
     ctx.exhaustive = False
     ctx.assumptions += [
         'promptness: a return later than 5 s after the context ended is late, a call still pending after 12 s hangs; both are re-run before '
         'they are reported',
-        'deadlines are real timers (400 ms); cancel() is called by the driver while the server holds every reply']
+        'deadlines are real timers (400 ms); cancel() is called by the driver while the server holds every reply, answers LOADING '
+        '(back-off of 9 s) or leaves the HELLO of a new connection unanswered (Dialer.Timeout 60 s)',
+        'manual cancellation of a context that also has a deadline is only required where the README promises it (pipeline mode, and the '
+        'waiting places that select on ctx.Done() themselves); during the handshake of a new connection only deadlines are required',
+        'one connection in the making per scenario: callers that share a dial wait for the first caller\'s handshake (not scripted)']
